@@ -369,6 +369,44 @@ def valid_generated(seeds, size=2, log=None):
     return out
 
 
+def with_names(spec, seed):
+    """attach a name section: a random subset of the entities of every index space gets a distinct name"""
+    r = random.Random(seed * 7919 + 1)
+    nimp = {k: sum(1 for i in spec.imports if i['kind'] == k) for k in ('func', 'table', 'memory', 'global')}
+    spaces = {'functions': nimp['func'] + len(spec.funcs), 'types': len(spec.types), 'tables': nimp['table'] + len(spec.tables), 'memories': nimp['memory'] + len(spec.memories),
+              'globals': nimp['global'] + len(spec.globals), 'elements': len(spec.elements), 'data': len(spec.data)}
+    names = {}
+    if r.random() < 0.7:
+        names['module'] = S('mod_name')
+    for sub, n in spaces.items():
+        m = {i: S('n_%s_%d' % (sub[:4], i)) for i in range(n) if r.random() < 0.6}
+        if m:
+            names[sub] = m
+    loc = {}
+    for k, f in enumerate(spec.funcs):
+        nparams = len(spec.types[f['type']][0])
+        nloc = nparams + sum(c for c, _ in f.get('locals', []))
+        m = {i: S('l_%d_%d' % (k, i)) for i in range(nloc) if r.random() < 0.6}
+        if m:
+            loc[nimp['func'] + k] = m
+    if loc:
+        names['locals'] = loc
+    spec.names = names
+    return spec
+
+
+def with_customs(spec, seed):
+    from mirsmt.pipeline import symstr
+    r = random.Random(seed * 104729 + 3)
+    spec.customs = []
+    for k in range(r.randint(1, 5)):
+        nm = symstr('c%d_name' % k) if r.random() < 0.4 else S(r.choice(['hello', 'hello', 'meta', 'debug_not_dot', 'x']))
+        spec.customs.append(dict(name=nm, data=Opaque('bytes:c%d' % k), place=r.choice(['start', 'before-code', 'end', 'end'])))
+    # the list is kept in binary order (the order in which the sections occur in the module)
+    spec.customs.sort(key=lambda c: ['start', 'before-code', 'end'].index(c['place']))
+    return spec
+
+
 _CACHE = {}
 
 
